@@ -23,22 +23,42 @@ def path_str(p):
     return "".join(("." + x) if not x.startswith("[") else x for x in p).lstrip(".")
 
 
-def has_flow(srcs, param, inpath):
-    """source set contains param at a path compatible with inpath (prefix either way), ignoring variant/compare markers"""
+def _match(p, q, strict):
+    """do source path p and oracle path q denote overlapping locations?  '[*]' is ignored on both sides; a constant
+    index present on only one side is skipped unless `strict` (used for forbidden flows: then it must be explicit)"""
+    p = [x for x in p if x not in ("#cmp", "#d", "[*]")]
+    q = [x for x in q if x != "[*]"]
+    i = j = 0
+    while i < len(p) and j < len(q):
+        a, b = p[i], q[j]
+        if a == b:
+            i += 1
+            j += 1
+            continue
+        ai, bi = a.startswith("["), b.startswith("[")
+        if ai and bi:
+            return False
+        if ai and not strict:
+            i += 1
+            continue
+        if bi and not strict:
+            j += 1
+            continue
+        return False
+    if strict:
+        # every explicit constant index of the oracle path must have been matched
+        return not any(x.startswith("[") for x in q[j:])
+    return True
+
+
+def has_flow(srcs, param, inpath, strict=False):
+    """source set contains param at a path compatible with inpath (prefix either way)"""
     for s in srcs:
         if s[0] != "param" or s[1] != param:
             continue
-        p = tuple(x for x in s[2] if x not in ("#cmp", "#d") and not x.startswith("["))
-        q = tuple(x for x in inpath if not x.startswith("["))
-        n = min(len(p), len(q))
-        ok = True
-        for k in range(n):
-            if not flow.elem_match(p[k], q[k]):
-                ok = False
-                break
-        if ok:
+        if _match(s[2], inpath, strict):
             return True
-    return flow.UNKNOWN in srcs
+    return flow.UNKNOWN in srcs and not strict
 
 
 def data_flow_only(srcs):
@@ -60,7 +80,7 @@ def check_flows(ctx, rid, f, rows, label=None):
             continue
         dd = data_flow_only(d)
         missing = [(p, ip) for p, ip in req if not has_flow(dd, p, ip)]
-        bad = [(p, ip) for p, ip in forb if has_flow(dd, p, ip)]
+        bad = [(p, ip) for p, ip in forb if has_flow(dd, p, ip, strict=True)]
         got = sorted("arg%d.%s" % (s[1], path_str(s[2])) for s in dd if s[0] == "param")
         if missing:
             ctx.violation(rid, inst, "%s: output %s does not derive from %s (it derives from %s)" % (
